@@ -58,7 +58,7 @@ def main():
             assert rc == 0 and not out2.strip(), f"patch does not apply to /repo HEAD, 3-way merge conflicts: {out} {out2}"
             sh("git reset -q", scratch)
             rc, out = sh("git diff -- src", scratch)
-            patch = f"{scratch}/.rebased.diff"
+            patch = f"/tmp/rebased_{os.getpid()}.diff"
             open(patch, "w").write(out)
             ran.append("patch rebased onto the current /repo HEAD with git apply --3way (no conflicts)")
             env3 = dict(os.environ, PYTHONPATH=f"{scratch}/src")
